@@ -99,9 +99,11 @@ def actors(plan, r, nh, nact=None, suspend=True, bounds=True, prios=True, io=Tru
                 if prios and r.chance(0.4):
                     # a priority change and a suspend of the same activity at one date (two updates in one round)
                     ops.append(['set_prio', s, r.choice([0.5, 2.0, 4.0])])
-                ops.append(['asuspend', s])
+                # (half of the time without reading the remaining work back: that read forces a lazy update)
+                quiet = ['noobs'] if r.chance(0.5) else []
+                ops.append(['asuspend', s] + quiet)
                 ops.append(['sleep', r.randint(1, 4) * 0.25])
-                ops.append(['aresume', s])
+                ops.append(['aresume', s] + quiet)
             elif mine and prios:
                 # (values that coincide with thread counts and with the current priority included: an update that
                 # changes nothing must not lose the completion event either)
